@@ -16,6 +16,7 @@ ShapesMix(n) == ShapesAW(n) \cup {Rep("W", w) \o Rep("A", a) : a \in 0..n, w \in
                             \cup {Alt(a, w) : a \in 0..n, w \in 0..n}
 
 ShapesQuick == SeqsUpTo(2)
+ShapesTiny == SeqsUpTo(1)
 ShapesAW3 == ShapesAW(3)
 ShapesAll3 == SeqsUpTo(3)
 ShapesMix2 == ShapesMix(2)
